@@ -19,7 +19,7 @@ for pid in sys.argv[2:]:
         dst.mkdir(parents=True)
         for f in ("patch.diff", "demo.py", "meta.json"):
             shutil.copy(d / f, dst / f)
-        m = json.loads((dst / "meta.json").read_text()); m["round"] = 2 if "mut2" in prefix else 1
+        m = json.loads((dst / "meta.json").read_text()); import re as _re; _m = _re.search(r"mut(\d+)-", prefix); m["round"] = int(_m.group(1)) if _m else 1
         (dst / "meta.json").write_text(json.dumps(m, indent=1))
         new.append(dst); nxt += 1
     subprocess.run(["git", "-C", "/repo", "worktree", "remove", "--force", f"{prefix}{pid}"])
